@@ -194,8 +194,18 @@ func hasMergeKey(d *dv) bool {
 	return false
 }
 
+// c09indented: set while a pipeline is handled that holds a multi-line string beginning with whitespace (yaml.v3
+// writes such a string as a block scalar whose indentation indicator it gets wrong: known finding F22)
+var c09indented bool
+
 func c09reparse(leg string, data []byte, c sx.S, j1 string, kinds1 string, epa bool, proj1 string) {
 	mergeKey := strings.Contains(j1, `"\u003c\u003c":`) && leg == "yaml"
+	if c09indented && leg == "yaml" {
+		if p2, err := pipeline.Parse(bytes.NewReader(data)); err != nil && !warning.Is(err) || p2 == nil || projPipeline(p2) != proj1 {
+			oracleFail("C09", "reparse-yaml-indented-block", c, fmt.Sprintf("the yaml marshalling of a pipeline with a multi-line string that begins with whitespace does not re-parse to the same pipeline (err=%v)\n%s", err, data))
+			return
+		}
+	}
 	p2, err := pipeline.Parse(bytes.NewReader(data))
 	if err != nil && !warning.Is(err) {
 		cls := "reparse-" + leg + "-error"
@@ -315,9 +325,10 @@ func init() {
 				}
 			}
 			if excluded {
-				stat("C09", "yaml-leg-excluded")
+				stat("C09", "yaml-leg-indented-block")
 			}
-			if !excluded {
+			c09indented = excluded
+			{
 				yb, yerr := yaml.Marshal(p)
 				if yerr != nil {
 					oracleFail("C09", "yaml-marshal-error", c, yerr.Error())
@@ -330,7 +341,7 @@ func init() {
 					// model comparison over the YAML leg: the value tree of the emitted YAML (member order
 					// forgotten) and the JSON of its re-parse. A key spelled << does not survive yaml.v3's
 					// emitter (known finding F7) and is left to the oracle above.
-					if a, derr := decodeText(text); derr == nil && !skipModel && !strings.Contains(j1, `"\u003c\u003c":`) {
+					if a, derr := decodeText(text); derr == nil && !skipModel && !excluded && !strings.Contains(j1, `"\u003c\u003c":`) {
 						if ya, yerr2 := decodeText(string(yb)); yerr2 == nil {
 							if p3, err3 := pipeline.Parse(bytes.NewReader(yb)); err3 == nil || warning.Is(err3) {
 								if jb3, e := json.Marshal(p3); e == nil {
